@@ -24,6 +24,7 @@ inductive Err where
   | hpFormat        -- HP value that does not parse / asserts / index errors in `_extract_HP_phase`
   | mixed           -- MixedPhasingError
   | notSorted       -- VcfNotSortedError
+  | ploidy          -- PloidyError (only raised by the ploidy-aware reader of Model/C09File.lean)
 deriving DecidableEq, Repr
 
 def idxOf1 (order : List Nat) (h : Nat) : Option Nat :=
